@@ -19,6 +19,15 @@ CHECKS = {
  "C04": ("The X9 nesting automaton and the census of a file are Lean definitions; the Lean model of the reader state machine is tied to reader.go by EVERY single structural fault (delete, duplicate, move, insert of each kind, cut) of generated valid files, on which the census predicate is evaluated for the real Reader's result.",
          TB + "PARTIAL at proof level: the invariant `census(state) = attribute(consumed)` over the model's step function is stated, its proof is in progress; the fault enumeration is exhaustive per generated file. One recorded finding (duplicate file header, pinned by the repository's own test).",
          "Lean 4 model of the reader state machine + exhaustive single-fault correspondence", "§7.4"),
+ "C08": ("Lean theorems about the model writer: both framings wrap the same body and the prefix is len(record.String()) (framing_wraps_same_body); under EBCDIC the body of an ASCII-text record is its byte-for-byte CP037 transliteration of equal length (ebcdic_translit, via encode_ascii over the encoder model and the regenerated table), record 52 transliterates toString(false) and passes the image bytes of String() through (ebcdic_ivData); length-prefix framing is lossless (splitLP_joinLP). The model writer is tied to writer.go by rendering generated files (base64 images, lying image lengths, binary signatures included) in all four option sets with both, and the relations are checked on the real bytes.",
+         TB + "gdamore/encoding's encoder is modelled (rune-level, chunk boundary behaviour of x/text transform.String beyond 128-byte lines is NOT modelled; lines with non-ASCII text longer than 128 bytes are outside the model). One recorded finding (binary signature under EBCDIC).",
+         "Lean 4 proof on the writer model + four-rendering correspondence", "§7.8"),
+ "C18": ("Lean theorems on the reader model: a failed read carries the 1-based position of the record at which the loop stopped (C18_error_line, using lineStable proved by case analysis of all 21 record kinds) and the rejecting step leaves r.File untouched (rejected_record_leaves_file). Tied to reader.go by spoiling every record of generated files in every way (each field blank/zero/illegal, too short, unknown type) and comparing verdict, line and partial file.",
+         TB + "The theorem speaks about the model's step function; agreement with reader.go is by correspondence (0 disagreements over every spoil of the generated files).",
+         "Lean 4 proof on the reader model + exhaustive spoiled-record correspondence", "§7.18"),
+ "C19": ("Lean: `Mono`, a decidable criterion on rule trees (mode used only to skip a rejection, or to normalise a value the mode-off path rejects), is proved sound for every record value (mono_sound) and established by `decide` for the rule tree regenerated from every Validate(); hence validate_relaxes. Reader level: both modes are run by the real Reader and the model on generated files and per-column character sweeps (ASCII and EBCDIC).",
+         TB + "PARTIAL at proof level for the reader: the IBM1047 byte substitution on addendum A lines (EBCDIC input only, after the recorded fix) is covered by the two-mode correspondence stream, not by a theorem.",
+         "Lean 4 proof over regenerated rule trees + two-mode correspondence", "§7.19"),
  "C10": ("Validate() of every record is translated (go/ast) into a statement tree; Lean proves that its verdict on ANY record value is the first firing rule of its flattening (validate_sites) and `decide` shows the flattening and all code tables equal the hand-transcribed documented rules. The finite domain the property names (0-2 character strings, ints -1..100, both FRB settings) is additionally enumerated against the real Validate().",
          TB + "Go regexp evaluated per byte for the three character classes; the rule translator is validated each run by ~1M real Validate() verdicts.",
          "Lean 4 proof over regenerated rule trees/code tables + exhaustive correspondence", "§7.10"),
